@@ -126,7 +126,7 @@ def _gen_base(w, n, big=False):
             ops[-1][2] = [qgen.rand_angle(w) for _ in range(3 if nm == "CRot" else 1)]
         else:
             ops.append(_wrap(w, [w.choice(ROT1), [wires[0]], [qgen.rand_angle(w)]], wires))
-    if n > 1 and w.random() < 0.12:
+    if n > 1 and w.random() < 0.2:
         a, b = w.sample(wires, 2)
         ops.insert(w.randrange(len(ops) + 1), ["prodop", [w.choice(ROT1), [a], [qgen.rand_angle(w)]],
                                                [w.choice(ROT1), [b], [qgen.rand_angle(w)]]])
@@ -392,7 +392,9 @@ def gen_case(streams, tier):
                 mutators["derived_copy_trainable"] = 1
     if w.random() < 0.2 and n > 1:
         # a tape made with qp.map_wires from a tape OBJECT that was executed (fingerprinted) before
-        j = w.randrange(len(pool))
+        # sources that hold a composite operation (whose hash is memoised on the object) are preferred
+        with_comp = [i_ for i_, t_ in enumerate(pool) if any(o_[0] == "prodop" for o_ in t_["ops"])]
+        j = w.choice(with_comp) if with_comp and w.random() < 0.8 else w.randrange(len(pool))
         if not pool[j].get("derive") and not pool[j].get("shots") and not any(
                 isinstance((leaf[2] or [0])[0], dict) for _, leaf in _param_sites(pool[j]["ops"])):
             perm = list(range(n))
@@ -401,9 +403,17 @@ def gen_case(streams, tier):
             from checks import qgen as _qg
             im = {a: b for a, b in zip(range(n), perm)}
             try:
-                mapped = dict(pool[j], ops=[_qg.map_op_wires(o, im) for o in pool[j]["ops"]],
-                              mps=[_qg.map_mp_wires(m, im) for m in pool[j]["mps"]],
-                              derive={"from": j, "map_wires": wmap})
+                comp = [i_ for i_, o_ in enumerate(pool[j]["ops"]) if o_[0] == "prodop"]
+                if comp and w.random() < 0.7:
+                    # operator level: ONE operator of the fingerprinted circuit is re-used on other wires
+                    # (qp.map_wires(op, wire_map)); everything else, the measurements included, stays
+                    oi_ = w.choice(comp)
+                    new_ops = [(_qg.map_op_wires(o, im) if i_ == oi_ else o) for i_, o in enumerate(pool[j]["ops"])]
+                    mapped = dict(pool[j], ops=new_ops, derive={"from": j, "map_op": oi_, "map_wires": wmap})
+                else:
+                    mapped = dict(pool[j], ops=[_qg.map_op_wires(o, im) for o in pool[j]["ops"]],
+                                  mps=[_qg.map_mp_wires(m, im) for m in pool[j]["mps"]],
+                                  derive={"from": j, "map_wires": wmap})
                 pool.append(mapped)
                 mutators["derived_map_wires"] = 1
                 entry = "execute"
@@ -520,7 +530,12 @@ def run_case(case):
             d = spec.get("derive")
             if d:
                 src = _tape_obj(d["from"])
-                if "map_wires" in d:
+                if "map_op" in d:
+                    src.hash  # the source has been fingerprinted, as after an execution
+                    wm = {int(a): b for a, b in d["map_wires"].items()}
+                    ops_ = [(qp.map_wires(o, wm) if i_ == d["map_op"] else o) for i_, o in enumerate(src.operations)]
+                    objs[i] = qp.tape.QuantumScript(ops_, src.measurements, shots=src.shots)
+                elif "map_wires" in d:
                     src.hash  # the source has been fingerprinted, as after an execution
                     (objs[i],), _ = qp.map_wires(src, {int(a): b for a, b in d["map_wires"].items()})
                 elif "trainable" in d:
